@@ -237,6 +237,17 @@ bool splinetable<Alloc>::read_fits_core(fitsfile* fits, const std::string& fileP
 					std::copy(value,value+valuelen,aux[i][1]);
 					aux[i][1][valuelen-1]='\0';
 				}
+				//FITS doubles every single quote inside a string value, and cfitsio
+				//hands back the raw card text, so undo the doubling
+				if(value[0]=='\''){
+					char* out=&aux[i][1][0];
+					for(const char* in=out; *in; in++){
+						if(in[0]=='\'' && in[1]=='\'')
+							in++;
+						*out++=*in;
+					}
+					*out='\0';
+				}
 				i++;
 			}
 		} else {
